@@ -174,6 +174,7 @@ Proof. intros [(r & R & K & C & _) (r' & R' & V)] S. rewrite R in R'. inversion 
   - contradiction. Qed.
 
 (* ---------------------------------------------------------------- the decoder invariant *)
+Section INV.
 Variable G : nat -> Prop.     (* the rows whose value canoniser is idempotent *)
 Definition inv (m : pmap) : Prop := sorted m /\ Forall (fun e => weak e /\ (G (slot e) -> vfixed e)) m.
 
@@ -255,6 +256,8 @@ Proof. intros RO GI. induction fuel as [|f IH]; intros bs m m' rest I H; [discri
     apply (dec_pair_some _ Hmax) in D as [_ Fi]. eapply IH; [|exact H]. eapply inv_insert; eauto.
   - inversion H; subst. exact I. Qed.
 
+End INV.
+
 (* ---------------------------------------------------------------- round trip of the entry stream *)
 Lemma enc_entries_app a b : enc_entries (a ++ b) = enc_entries a ++ enc_entries b.
 Proof. unfold PsetMaps.enc_entries. now rewrite map_app, concat_app. Qed.
@@ -277,4 +280,196 @@ Proof. induction es as [|e es IH]; intros m0 fuel rest L S F.
     rewrite (insert_emitted m0 e (conj Wk Vf) S1). cbn [pbind].
     replace (m0 ++ e :: es) with ((m0 ++ [e]) ++ es) in * by now rewrite <- app_assoc.
     apply IH; auto. cbn [length] in L. lia. Qed.
+
+(* ---------------------------------------------------------------- one map *)
+Variable post : pmap -> option perr.
+Notation dec_map := (dec_map maxvec T post).
+Notation enc_map := (enc_map maxvec T).
+Definition wf_map (m : pmap) : Prop := wf_entries m /\ post m = None.
+
+Theorem dec_map_rt m rest : wf_map m -> dec_map (enc_map m ++ rest) = POk (m, rest).
+Proof. intros [[S F] P]. unfold PsetMaps.dec_map, PsetMaps.enc_map. rewrite <- app_assoc. cbn [app].
+  rewrite (dec_entries_emitted m [] _ rest); [cbn [pbind fst app]; now rewrite P| |exact S|exact F].
+  rewrite app_length. pose proof (enc_entries_length m). lia. Qed.
+
+Section FIX.
+Variable G : nat -> Prop.
+Lemma inv_nil : inv G []. Proof. split; [exact I|constructor]. Qed.
+Theorem dec_map_inv bs m rest : rows_ok -> (forall j r', nth_error T j = Some r' -> G j -> v_idem r') ->
+  dec_map bs = POk (m, rest) -> inv G m /\ post m = None.
+Proof. intros RO GI H. unfold PsetMaps.dec_map in H. destruct (dec_entries (S (length bs)) bs []) as [[m' r']|] eqn:D; [|discriminate].
+  cbn [pbind fst] in H. destruct (post m') eqn:P; [discriminate|]. inversion H; subst. split; [|exact P].
+  eapply inv_dec_entries; eauto. apply inv_nil. Qed.
+Lemma inv_wf m : inv G m -> Forall (fun e => G (slot e) \/ vfixed e) m -> wf_entries m.
+Proof. intros [S F] H. split; [exact S|]. rewrite Forall_forall in *. intros e He. destruct (F e He) as [W V]. split; [exact W|].
+  destruct (H e He); auto. Qed.
+(* decode; encode; decode again gives the same map, and its encoding is a fixpoint *)
+Theorem dec_map_fix bs m rest : rows_ok -> (forall j r', nth_error T j = Some r' -> G j -> v_idem r') ->
+  dec_map bs = POk (m, rest) -> Forall (fun e => G (slot e) \/ vfixed e) m ->
+  wf_map m /\ forall rest', dec_map (enc_map m ++ rest') = POk (m, rest').
+Proof. intros RO GI H F. destruct (dec_map_inv _ _ _ RO GI H) as [I P].
+  assert (W : wf_map m) by (split; [now apply inv_wf|exact P]). split; [exact W|]. intros. now apply dec_map_rt. Qed.
+
+End FIX.
+
+(* ---- duplicate keys ---- *)
+Lemma has_ins e m i k : has (ins e m) i k = same i k e || has m i k.
+Proof. unfold has. induction m as [|x m IH]; cbn [ins existsb]; [now rewrite orb_false_r|].
+  destruct (before e x); cbn [existsb]; [reflexivity|]. rewrite IH. now rewrite !orb_assoc, (orb_comm (same i k x)). Qed.
+Lemma has_replace m i k j k' v : has (replace j k' v m) i k = has m i k.
+Proof. unfold has, replace. induction m as [|x m IH]; [reflexivity|]. cbn [map existsb]. rewrite IH. f_equal.
+  unfold same at 2. destruct (Nat.eqb_spec (slot x) j) as [E|]; [|reflexivity]. destruct (bytes_eqb_spec (ekey x) k') as [E'|]; [|reflexivity].
+  cbn [andb]. unfold same. cbn [slot ekey fst snd]. now rewrite E, E'. Qed.
+(* what a successful insertion stores: the canonical key is present afterwards, and nothing is ever removed *)
+Lemma insert_has key v m m' : insert_pair key v m = POk m' ->
+  (forall i k, has m i k = true -> has m' i k = true) /\
+  exists i kd r, classify key = POk (i, kd) /\ nth_error T i = Some r /\
+    has m' i (match r_kind r with KMap => match r_kcanon r kd with Some k => k | None => [] end | _ => [] end) = true.
+Proof. unfold PsetMaps.insert_pair. destruct (classify key) as [[i kd]|] eqn:C; [|discriminate]. cbn [pbind].
+  destruct (nth_error T i) as [r|] eqn:R; [|discriminate]. intros H.
+  assert (X : forall k c, m' = ins (i, k, c) m -> (forall i0 k0, has m i0 k0 = true -> has m' i0 k0 = true) /\ has m' i k = true).
+  { intros k c ->. split; [intros i0 k0 Hh; rewrite has_ins, Hh; apply orb_true_r|]. rewrite has_ins. unfold same. cbn [slot ekey fst snd].
+    now rewrite Nat.eqb_refl, bytes_eqb_refl. }
+  destruct (r_kind r) eqn:KD.
+  - destruct kd; [|discriminate]. destruct (has m i []); [discriminate|]. destruct (r_vcanon r [] v) as [c|]; [|discriminate]. cbn [pbind] in H. injection H as <-.
+    destruct (X [] c eq_refl) as [M Hn]. split; [exact M|]. exists i, [], r. rewrite KD. auto.
+  - destruct kd; [|discriminate]. destruct (r_vcanon r [] v) as [c|]; [|discriminate]. cbn [pbind] in H. injection H as <-. destruct (has m i []) eqn:Hh.
+    + split; [intros; now rewrite has_replace|]. exists i, [], r. rewrite KD, has_replace. auto.
+    + destruct (X [] c eq_refl) as [M Hn]. split; [exact M|]. exists i, [], r. rewrite KD. auto.
+  - destruct kd as [|b kd]; [discriminate|]. destruct (r_kcanon r (b :: kd)) as [k|] eqn:KC; [|discriminate].
+    assert (Y : exists c, m' = ins (i, k, c) m).
+    { destruct (r_vfirst r).
+      - destruct (r_vcanon r k v) as [c|]; [|discriminate]. cbn [pbind] in H. destruct (has m i k); [discriminate|]. injection H as <-. eauto.
+      - destruct (has m i k); [discriminate|]. destruct (r_vcanon r k v) as [c|]; [|discriminate]. cbn [pbind] in H. injection H as <-. eauto. }
+    destruct Y as [c Y]. destruct (X k c Y) as [M Hn]. split; [exact M|]. exists i, (b :: kd), r. rewrite KD, KC. auto.
+  - discriminate. Qed.
+(* a second pair with a raw key already seen is an error, unless the field is assigned without the is_none() test *)
+Lemma insert_dup key v m i kd r :
+  classify key = POk (i, kd) -> nth_error T i = Some r -> r_kind r <> KOptLast ->
+  has m i (match r_kind r with KMap => match r_kcanon r kd with Some k => k | None => [] end | _ => [] end) = true ->
+  exists e, insert_pair key v m = PErr e.
+Proof. intros C R NL H. unfold PsetMaps.insert_pair. rewrite C. cbn [pbind]. rewrite R. destruct (r_kind r) eqn:KD; try congruence.
+  - destruct kd; [rewrite H|]; eauto.
+  - destruct kd as [|b kd]; [eauto|]. destruct (r_kcanon r (b :: kd)) as [k|]; [|eauto]. rewrite H.
+    destruct (r_vfirst r); [|eauto]. destruct (r_vcanon r k v); cbn [pbind]; eauto.
+  - eauto. Qed.
+Lemma dec_entries_has : forall fuel bs m m' rest, dec_entries fuel bs m = POk (m', rest) -> forall i k, has m i k = true -> has m' i k = true.
+Proof. induction fuel as [|f IH]; intros bs m m' rest H i k Hh; [discriminate|]. cbn [PsetMaps.dec_entries] in H.
+  destruct (dec_pair maxvec bs) as [[[[key v]|] r]|]; try discriminate.
+  - destruct (insert_pair key v m) as [m1|] eqn:P; [|discriminate]. cbn [pbind] in H. eapply IH; [exact H|]. now apply (proj1 (insert_has _ _ _ _ P)).
+  - inversion H; subst. exact Hh. Qed.
+Fixpoint enc_pairs (ps : list rpair) : bytes := match ps with [] => [] | p :: r => enc_pair maxvec p ++ enc_pairs r end.
+Theorem dup_rejected : forall fuel (a : list rpair) key v1 (b : list rpair) v2 tail m i kd r,
+  Forall (fits maxvec) a -> fits maxvec (key, v1) -> Forall (fits maxvec) b -> fits maxvec (key, v2) ->
+  classify key = POk (i, kd) -> nth_error T i = Some r -> r_kind r <> KOptLast ->
+  exists e, dec_entries fuel (enc_pairs a ++ enc_pair maxvec (key, v1) ++ enc_pairs b ++ enc_pair maxvec (key, v2) ++ tail) m = PErr e.
+Proof. intros fuel a key v1 b v2 tail m i kd r Fa F1 Fb F2 C R NL. revert fuel m.
+  assert (SECOND : forall b fuel m, Forall (fits maxvec) b ->
+    has m i (match r_kind r with KMap => match r_kcanon r kd with Some k => k | None => [] end | _ => [] end) = true ->
+    exists e, dec_entries fuel (enc_pairs b ++ enc_pair maxvec (key, v2) ++ tail) m = PErr e).
+  { clear b Fb. induction b as [|p b IH]; intros fuel m Fb Hh; (destruct fuel as [|f]; [cbn; eauto|]); cbn [enc_pairs app PsetMaps.dec_entries].
+    - rewrite (dec_pair_enc _ Hmax _ _ F2). destruct (insert_dup key v2 m i kd r C R NL Hh) as [e ->]. cbn [pbind]. eauto.
+    - inversion Fb; subst. rewrite <- app_assoc, (dec_pair_enc _ Hmax _ _ H1). destruct p as [kp vp].
+      destruct (insert_pair kp vp m) as [m1|] eqn:P; cbn [pbind]; [|eauto]. apply IH; auto. now apply (proj1 (insert_has _ _ _ _ P)). }
+  induction a as [|p a IH]; intros fuel m; (destruct fuel as [|f]; [cbn; eauto|]); cbn [enc_pairs app PsetMaps.dec_entries].
+  - rewrite (dec_pair_enc _ Hmax _ _ F1). destruct (insert_pair key v1 m) as [m1|] eqn:P; cbn [pbind]; [|eauto].
+    destruct (insert_has _ _ _ _ P) as [_ (i' & kd' & r' & C' & R' & Hh)]. rewrite C in C'. inversion C'; subst i' kd'. rewrite R in R'. inversion R'; subst r'.
+    now apply SECOND.
+  - inversion Fa; subst. rewrite <- app_assoc, (dec_pair_enc _ Hmax _ _ H1). destruct p as [kp vp].
+    destruct (insert_pair kp vp m) as [m1|] eqn:P; cbn [pbind]; [|eauto]. now apply IH. Qed.
 End ONE.
+(* ---------------------------------------------------------------- the whole PSET *)
+Section PSET.
+Variable maxvec : N.
+Hypothesis Hmax : maxvec + 1 < 2 ^ 64.
+Hypothesis Hmin : 4 <= maxvec.
+Variables Tg Ti To : table.
+Variables postg posti posto : pmap -> option perr.
+Variables n_inputs n_outputs : pmap -> N.
+Variable cap : N.
+Hypothesis ROg : rows_ok Tg. Hypothesis ROi : rows_ok Ti. Hypothesis ROo : rows_ok To.
+(* rows with idempotent value canonisers, per table *)
+Variables Gg Gi Go : nat -> Prop.
+Hypothesis GIg : forall j r, nth_error Tg j = Some r -> Gg j -> v_idem r.
+Hypothesis GIi : forall j r, nth_error Ti j = Some r -> Gi j -> v_idem r.
+Hypothesis GIo : forall j r, nth_error To j = Some r -> Go j -> v_idem r.
+
+Notation serialize := (serialize maxvec Tg Ti To).
+Notation deserialize := (deserialize maxvec Tg Ti To postg posti posto n_inputs n_outputs cap).
+Notation dec_pset := (dec_pset maxvec Tg Ti To postg posti posto n_inputs n_outputs cap).
+Notation dec_maps := (dec_maps maxvec).
+
+Definition wf_pset (p : pset) : Prop :=
+  wf_map maxvec Tg postg (p_global p) /\ Forall (wf_map maxvec Ti posti) (p_inputs p) /\ Forall (wf_map maxvec To posto) (p_outputs p) /\
+  n_inputs (p_global p) = N.of_nat (length (p_inputs p)) /\ n_outputs (p_global p) = N.of_nat (length (p_outputs p)) /\
+  n_inputs (p_global p) <= cap /\ n_outputs (p_global p) <= cap.
+
+Lemma dec_maps_rt T post ms rest : Forall (wf_map maxvec T post) ms ->
+  dec_maps T post (length ms) (concat (map (enc_map maxvec T) ms) ++ rest) = POk (ms, rest).
+Proof. induction ms as [|m ms IH]; intros F; [reflexivity|]. inversion F; subst. cbn [length map concat PsetMaps.dec_maps].
+  rewrite <- app_assoc, (dec_map_rt maxvec Hmax Hmin T post m _ H1). cbn [pbind fst snd]. rewrite (IH H2). reflexivity. Qed.
+
+Theorem pset_rt p : wf_pset p -> deserialize (serialize p) = POk p.
+Proof. intros (Wg & Wi & Wo & Ni & No & Ci & Co). unfold PsetMaps.deserialize, PsetMaps.dec_pset, PsetMaps.serialize, magic. cbn [app].
+  rewrite (dec_map_rt maxvec Hmax Hmin Tg postg _ _ Wg). cbn [pbind fst snd].
+  destruct (N.ltb_spec cap (n_inputs (p_global p))); [lia|]. rewrite Ni, Nat2N.id, (dec_maps_rt Ti posti _ _ Wi). cbn [pbind fst snd].
+  destruct (N.ltb_spec cap (n_outputs (p_global p))); [lia|]. rewrite No, Nat2N.id.
+  rewrite <- (app_nil_r (concat (map (enc_map maxvec To) (p_outputs p)))), (dec_maps_rt To posto _ _ Wo). cbn [pbind fst snd]. now destruct p. Qed.
+
+Definition pmap_ok (T : table) (G : nat -> Prop) (m : pmap) : Prop := Forall (fun e => G (slot e) \/ vfixed T e) m.
+(* every stored value is a fixed point of its canoniser (automatic for rows in G) *)
+Definition pset_fixed (p : pset) : Prop :=
+  pmap_ok Tg Gg (p_global p) /\ Forall (pmap_ok Ti Gi) (p_inputs p) /\ Forall (pmap_ok To Go) (p_outputs p).
+
+Lemma dec_maps_inv T post (G : nat -> Prop) : rows_ok T -> (forall j r, nth_error T j = Some r -> G j -> v_idem r) ->
+  forall n bs ms rest, dec_maps T post n bs = POk (ms, rest) ->
+  length ms = n /\ Forall (fun m => inv maxvec T G m /\ post m = None) ms.
+Proof. intros RO GI. induction n as [|n IH]; intros bs ms rest H; cbn [PsetMaps.dec_maps] in H.
+  - inversion H; subst. split; [reflexivity|constructor].
+  - destruct (dec_map maxvec T post bs) as [[m r]|] eqn:D; [|discriminate]. cbn [pbind fst snd] in H.
+    destruct (dec_maps T post n r) as [[l r']|] eqn:D'; [|discriminate]. cbn [pbind fst snd] in H. inversion H; subst.
+    destruct (IH _ _ _ D') as [L F]. split; [cbn; now rewrite L|]. constructor; [|exact F].
+    eapply (dec_map_inv maxvec Hmax Hmin T post G); eauto. Qed.
+
+Lemma dec_pset_inv bs p rest : dec_pset bs = POk (p, rest) ->
+  exists r0 g r1 ins r2 outs, bs = magic ++ r0 /\ PsetMaps.dec_map maxvec Tg postg r0 = POk (g, r1) /\ n_inputs g <= cap /\
+    dec_maps Ti posti (N.to_nat (n_inputs g)) r1 = POk (ins, r2) /\ n_outputs g <= cap /\
+    dec_maps To posto (N.to_nat (n_outputs g)) r2 = POk (outs, rest) /\ p = {| p_global := g; p_inputs := ins; p_outputs := outs |}.
+Proof. unfold PsetMaps.dec_pset. intros H.
+  destruct bs as [|b0 bs]; [discriminate|]. destruct b0; try discriminate.
+  destruct bs as [|b1 bs]; [discriminate|]. destruct b1; try discriminate.
+  destruct bs as [|b2 bs]; [discriminate|]. destruct b2; try discriminate.
+  destruct bs as [|b3 bs]; [discriminate|]. destruct b3; try discriminate.
+  destruct bs as [|b4 bs]; [discriminate|]. destruct b4; try discriminate.
+  destruct (PsetMaps.dec_map maxvec Tg postg bs) as [[g r0]|] eqn:Dg; [|discriminate]. cbn [pbind fst snd] in H.
+  destruct (N.ltb_spec cap (n_inputs g)) as [|Ci]; [discriminate|].
+  destruct (dec_maps Ti posti (N.to_nat (n_inputs g)) r0) as [[ins r1]|] eqn:Di; [|discriminate]. cbn [pbind fst snd] in H.
+  destruct (N.ltb_spec cap (n_outputs g)) as [|Co]; [discriminate|].
+  destruct (dec_maps To posto (N.to_nat (n_outputs g)) r1) as [[outs r2]|] eqn:Do; [|discriminate]. cbn [pbind fst snd] in H.
+  inversion H; subst. exists bs, g, r0, ins, r1, outs. repeat split; auto. Qed.
+
+(* what the decoder returns is a well-formed PSET (given the fixedness of values outside the idempotent rows) *)
+Theorem deserialize_wf bs p : deserialize bs = POk p -> pset_fixed p -> wf_pset p.
+Proof. unfold PsetMaps.deserialize. intros H (Fg & Fi & Fo).
+  destruct (dec_pset bs) as [[p' rest]|] eqn:D; [|discriminate]. cbn [pbind fst snd] in H. destruct rest; [|discriminate]. inversion H; subst p'.
+  destruct (dec_pset_inv _ _ _ D) as (r0 & g & r1 & ins & r2 & outs & _ & Dg & Ci & Di & Co & Do & ->). cbn [p_global p_inputs p_outputs] in *.
+  destruct (dec_map_inv maxvec Hmax Hmin Tg postg Gg _ _ _ ROg GIg Dg) as [Ig Pg].
+  destruct (dec_maps_inv Ti posti Gi ROi GIi _ _ _ _ Di) as [Li Ii]. destruct (dec_maps_inv To posto Go ROo GIo _ _ _ _ Do) as [Lo Io].
+  unfold wf_pset. cbn [p_global p_inputs p_outputs].
+  split; [split; [now apply (inv_wf maxvec Tg Gg)|exact Pg]|].
+  split. { rewrite Forall_forall in *. intros m Hm. destruct (Ii m Hm). split; [apply (inv_wf maxvec Ti Gi); [assumption|now apply Fi]|assumption]. }
+  split. { rewrite Forall_forall in *. intros m Hm. destruct (Io m Hm). split; [apply (inv_wf maxvec To Go); [assumption|now apply Fo]|assumption]. }
+  repeat split; lia. Qed.
+
+(* decoding, then encoding, gives a byte string that decodes to the same PSET (so its encoding is a fixpoint) *)
+Theorem pset_fixpoint bs p : deserialize bs = POk p -> pset_fixed p -> deserialize (serialize p) = POk p.
+Proof. intros H F. apply pset_rt. eapply deserialize_wf; eauto. Qed.
+(* accepted input: the declared counts are the numbers of maps (sanity_check cannot fail after a decode) *)
+Theorem deserialize_counts bs p : deserialize bs = POk p -> sanity_check n_inputs n_outputs p = true.
+Proof. unfold PsetMaps.deserialize, sanity_check. intros H.
+  destruct (dec_pset bs) as [[p' rest]|] eqn:D; [|discriminate]. cbn [pbind fst snd] in H. destruct rest; [|discriminate]. inversion H; subst p'.
+  destruct (dec_pset_inv _ _ _ D) as (r0 & g & r1 & ins & r2 & outs & _ & Dg & Ci & Di & Co & Do & ->). cbn [p_global p_inputs p_outputs] in *.
+  destruct (dec_maps_inv Ti posti (fun _ => False) ROi (fun _ _ _ F => match F with end) _ _ _ _ Di) as [Li _].
+  destruct (dec_maps_inv To posto (fun _ => False) ROo (fun _ _ _ F => match F with end) _ _ _ _ Do) as [Lo _].
+  rewrite Li, Lo, !N2Nat.id, !N.eqb_refl. reflexivity. Qed.
+End PSET.
